@@ -182,7 +182,7 @@ pub struct Sut {
     pub deadline: u64,
 }
 
-pub const STEP_DEADLINE_S: u64 = 25;
+pub const STEP_DEADLINE_S: u64 = 60;
 
 impl Sut {
     pub fn open(path: &Path, cfg: &Cfg) -> Sut {
@@ -365,7 +365,7 @@ fn out_tok(o: &QOut) -> Option<String> {
 /// `SELECT * FROM t`: `<hex col>=<cells>/<hex col>=<cells>` columns sorted by name (bytes), cells in row order
 /// (`.`-separated); `empty` for a result without rows and columns; `err:<kind>` / `panic` / `hang`.
 pub fn select_star(db: &Arc<LocustDB>, table: &str) -> String {
-    let o = query_full(db, &format!("SELECT * FROM {} LIMIT 1000000", quote_ident(table)), true, 20);
+    let o = query_full(db, &format!("SELECT * FROM {} LIMIT 1000000", quote_ident(table)), true, QUERY_DEADLINE_S);
     if let Some(e) = out_tok(&o) { return e; }
     if let QOut::Ok { colnames, rows: Some(rows), .. } = &o {
         let mut cols: BTreeMap<Vec<u8>, Vec<String>> = BTreeMap::new();
@@ -386,7 +386,7 @@ pub fn select_star(db: &Arc<LocustDB>, table: &str) -> String {
 
 /// One string column as a sorted multiset of hex names (duplicates stay visible); NULLs as `_`.
 pub fn name_column(db: &Arc<LocustDB>, table: &str, col: &str) -> String {
-    let o = query_full(db, &format!("SELECT {} FROM {} LIMIT 1000000", col, quote_ident(table)), true, 20);
+    let o = query_full(db, &format!("SELECT {} FROM {} LIMIT 1000000", col, quote_ident(table)), true, QUERY_DEADLINE_S);
     if let Some(e) = out_tok(&o) { return e; }
     if let QOut::Ok { rows: Some(rows), .. } = &o {
         let mut names: Vec<String> = rows.iter().map(|r| match r.get(0) { Some(Cell::Str(s)) => hexs(s), Some(c) => c.tok(), None => "?".into() }).collect();
@@ -396,8 +396,26 @@ pub fn name_column(db: &Arc<LocustDB>, table: &str, col: &str) -> String {
     "err:shape".into()
 }
 
+/// Set by c13: also dump `LocustDB::search_column_names(t, ".*")` per table (`SC<hex t>=<names>`, sorted multiset).
+pub static DUMP_SEARCH: std::sync::atomic::AtomicBool = std::sync::atomic::AtomicBool::new(false);
+
+/// `LocustDB::search_column_names(table, ".*")` as a sorted multiset of hex names.
+pub fn search_names(db: &Arc<LocustDB>, table: &str) -> String {
+    let db2 = db.clone();
+    let t = table.to_string();
+    match with_deadline(QUERY_DEADLINE_S, move || futures::executor::block_on(db2.search_column_names(&t, ".*")).map_err(|e| e.to_string())) {
+        None => "hang".into(),
+        Some(Err(_)) => "panic".into(),
+        Some(Ok(Err(_))) => "err".into(),
+        Some(Ok(Ok(names))) => { let mut v: Vec<String> = names.iter().map(|s| hexs(s)).collect(); v.sort(); toks(&v, |s| s.clone()) }
+    }
+}
+
+/// Deadline of one dump query (generous: the machine is shared).
+pub const QUERY_DEADLINE_S: u64 = 60;
+
 /// Canonical dump of the logical state: user tables (sorted), table catalogue, column catalogues.
-///   `T<hex t>=<select star>`  `MT=<names>`  `MC<hex t>=<names>`
+///   `T<hex t>=<select star>`  `MT=<names>`  `MC<hex t>=<names>`  (`SC<hex t>=<names>` when `DUMP_SEARCH`)
 pub fn dump(db: &Arc<LocustDB>, tables: &[String]) -> String {
     let mut ts: Vec<&String> = tables.iter().collect();
     ts.sort_by(|a, b| a.as_bytes().cmp(b.as_bytes()));
@@ -405,6 +423,9 @@ pub fn dump(db: &Arc<LocustDB>, tables: &[String]) -> String {
     for t in &ts { out.push(format!("T{}={}", hexs(t), select_star(db, t))); }
     out.push(format!("MT={}", name_column(db, "_meta_tables", "name")));
     for t in &ts { out.push(format!("MC{}={}", hexs(t), name_column(db, &format!("_meta_columns_{}", t), "column_name"))); }
+    if DUMP_SEARCH.load(std::sync::atomic::Ordering::Relaxed) {
+        for t in &ts { out.push(format!("SC{}={}", hexs(t), search_names(db, t))); }
+    }
     out.join(" ")
 }
 
@@ -424,6 +445,59 @@ pub fn tables_of(steps: &[Step]) -> Vec<String> {
 }
 
 // ---------------------------------------------------------------------------------------------
+// File-system effect recorder (hook `verif::set_fs_callback`): completed renames (= stores) and removals, in the
+// order the implementation performed them.  The callback is process-global; events are attributed to a database
+// by its directory.
+static FS_EVENTS: std::sync::Mutex<Vec<(String, PathBuf)>> = std::sync::Mutex::new(Vec::new());
+
+pub fn install_fs_recorder() {
+    vharness::locustdb::verif::set_fs_callback(Some(Box::new(|label, path, _data| {
+        if label == "store:renamed" || label == "delete:done" {
+            FS_EVENTS.lock().unwrap().push((label.to_string(), path.to_path_buf()));
+        }
+    })));
+}
+
+/// Remove and return the events below `root`: (kind, relative path) with kind
+/// w = segment stored, s = partition file stored, m = catalogue stored, d = partition file removed, x = segment removed.
+pub fn take_events(root: &Path) -> Vec<(char, String)> {
+    let mut g = FS_EVENTS.lock().unwrap();
+    let mut mine = vec![];
+    let mut rest = vec![];
+    for (label, p) in g.drain(..) {
+        match p.strip_prefix(root) {
+            Ok(rel) => {
+                let rel = rel.to_string_lossy().to_string();
+                let store = label == "store:renamed";
+                let kind = if rel == "meta" { if store { 'm' } else { '?' } }
+                    else if rel.starts_with("wal/") { if store { 'w' } else { 'x' } }
+                    else if rel.starts_with("tables/") { if store { 's' } else { 'd' } }
+                    else { '?' };
+                mine.push((kind, rel));
+            }
+            Err(_) => rest.push((label, p)),
+        }
+    }
+    *g = rest;
+    mine
+}
+
+/// `E<kind>:<hex path>,…><kind>:…`: maximal runs of events of one kind (= the phases of a flush; the effects of one
+/// phase run concurrently on the io threads, so they are sorted), `E_` when nothing happened.
+pub fn effects_tok(ev: &[(char, String)]) -> String {
+    if ev.is_empty() { return "E_".into(); }
+    let mut phases: Vec<(char, Vec<String>)> = vec![];
+    for (k, p) in ev {
+        match phases.last_mut() {
+            Some((lk, ps)) if *lk == *k => ps.push(hexs(p)),
+            _ => phases.push((*k, vec![hexs(p)])),
+        }
+    }
+    let toks: Vec<String> = phases.into_iter().map(|(k, mut ps)| { ps.sort(); format!("{}:{}", k, ps.join(",")) }).collect();
+    format!("E{}", toks.join(">"))
+}
+
+// ---------------------------------------------------------------------------------------------
 // Running a whole history and observing after every step.
 #[derive(Clone, Debug)]
 pub struct StepObs {
@@ -436,6 +510,8 @@ pub struct StepObs {
     pub meta: Option<(u64, Vec<PartMeta>)>,
     pub dead: bool,
     pub detail: String,
+    /// effect phases observed during this step (`E_` unless `install_fs_recorder` was called)
+    pub effects: String,
 }
 
 /// Run `steps` on a fresh directory; one observation per step (stops after the first hang / panic).
@@ -447,9 +523,11 @@ pub fn run_history_deadline(cfg: &Cfg, steps: &[Step], deadline: u64) -> Vec<Ste
     sut.deadline = deadline;
     let mut out = vec![];
     let mut prev_meta = read_meta(dir.path());
+    let _ = take_events(dir.path());
     for (i, st) in steps.iter().enumerate() {
         sut.apply(st);
         if let Step::Restart = st { if sut.alive() { sut.settle(); } }
+        let effects = effects_tok(&take_events(dir.path()));
         let meta = read_meta(dir.path());
         let mut kind = st.kind().to_string();
         let toks = match st {
@@ -469,7 +547,7 @@ pub fn run_history_deadline(cfg: &Cfg, steps: &[Step], deadline: u64) -> Vec<Ste
         let tables = tables_of(&steps[..=i]);
         let dump = sut_dump(&sut, &tables);
         let dead = !sut.alive();
-        out.push(StepObs { toks, kind, dump, listing: listing(dir.path()), meta, dead, detail: sut.panic_detail.clone() });
+        out.push(StepObs { toks, kind, dump, listing: listing(dir.path()), meta, dead, detail: sut.panic_detail.clone(), effects });
         if dead { break; }
     }
     // dropping the database stops its threads; the directory is removed afterwards
